@@ -107,6 +107,7 @@ def ffcKeyUnpack (v : Bytes) : R FfcKey :=
   if Py.sliceN v 0 4 ≠ dhpb then .error .valueError
   else
     let kl := Py.fromLE (Py.sliceN v 4 8)
+    if v.length < 8 + 3 * kl then .error .valueError else   -- guard added by the fix (D13)
     let fo := Py.sliceN v 8 (8 + kl)
     let v1 := (v.drop (8 + kl))
     let g := Py.sliceN v1 0 kl
